@@ -69,3 +69,7 @@ def main(argv):
     for name, fn in facts.fns.items():
         if any(p == name or (p.endswith('$') and name.endswith(p[:-1])) or (not p.endswith('$') and p in name and 'closure' not in name.replace(p, '')) for p in pats):
             dump(fn)
+
+
+if __name__ == '__main__':
+    main(sys.argv)
